@@ -29,6 +29,9 @@ STRENGTHENED = {
  "C12-m14": "missed at first: generators were only used as constructed; the public configuration fields (BoolGenerator::true_probability here; the size and element generator of a collection generator in C18) are now also reassigned after construction and after earlier samples, and what is drawn must follow the value the field has at that moment",
  "C04-m16": "missed at first: C04 drove the Stack type only; insertion through the state-level helpers (HasStack::with_push / with_replace, PushOnto::push_onto / replace_on, StackPush::with_stack_push) is now driven on states whose maximum was lowered after filling: a successful insertion must leave the stack within its current maximum with exactly the expected contents",
  "C19-m15": "missed at first: the builder was only given materialised value lists; it is now also given exact-size iterators that merely announce up to usize::MAX items (repeat_n, a mapped range), onto empty and already loaded stacks, bounded and unbounded - an overflow error from both, never a panic or an attempt to reserve what was announced (C04 had this for push_many / try_extend since round 5)",
+ "C03-m17": "missed at first (and C03-m1, the same defect, had meanwhile slipped out again - found by the parallel regression): whether a random program happens to put i64::MIN and -1 under an Int.Mod depended on the seed. C03 now sweeps every instruction shape over all pairs (triples for Clamp) of the boundary operand pools on roomy stacks: no panic, nothing fatal",
+ "C18-m18": "missed at first: Bitstring::random was only judged by its length (its bit statistics belong to C12, which reports this change); C18 now also requires every position of 256 random bitstrings (sizes on both sides of the 64-bit word boundaries) to show both values - a position that is never drawn shows a single one",
+ "C19-m17": "missed at first: the sizes handed to the builder were small; they now also cover 0, 1, the neighbourhoods of 2^32 and 2^63 and usize::MAX, globally, individually and in last-set-wins sequences, on PushState and on a macro fixture",
  "C15-m10": "missed at first: copies were never made through clone_from; EcIndividual and TestResults are now also copied with clone_from and Vec::clone_from (overwriting existing elements) and must equal their source",
  "C16-m9": "missed at first, as a harness build failure: the change adds Send + Sync bounds to Map's Vec impl, which C14's Rc-based probes do not satisfy, and all ec monitors lived in one binary. Every property now has its own binary, and C16's registry maps an operator over vectors of up to 2049 genomes",
  "C17-m10": "missed at first: the member errors used behind DynWeighted had no cause chain; a member whose error has a two-level source chain is now used and the whole chain must be reachable through source() from what the list reports",
